@@ -93,6 +93,12 @@ class P(Prop):
                 c["knot"] = [C.bits(kx), C.bits(ky)]
             out.append(c)
         out.append(dict(op="pw_indefinite", ty="Poly2", segs=[], meta={"class": "indefinite/empty"}))
+        # indefinite() of functions whose FIRST piece is open-ended (end = +inf) or whose antiderivative overflows at its end:
+        # the first piece must come back with additive constant zero, whatever its value at its breakpoint is
+        for ty in ("Poly0", "Poly2", "Poly3", "Log<Poly1>", "Log<Poly2>"):
+            for es in ([float("inf")], [1e80, float("inf")], [1e200]):
+                sg = [[C.bits(e)] + [C.bits(rng.choice([1.0, -2.0, 3.0, 0.5])) for _ in range(G.arity(ty))] for e in es]
+                out.append(dict(op="pw_indefinite", ty=ty, segs=sg, libm=ty.startswith("Log"), meta={"class": "indefinite/open_ended"}))
         return out
 
     def hyp_term(self, case, h):
@@ -150,6 +156,10 @@ class P(Prop):
                 return "breakpoint %d changed" % i
         if not segs:
             return None
+        if case["op"] == "pw_indefinite":
+            k0 = C.fl(pieces[0][1])
+            if not (k0 == 0.0):
+                return "indefinite(): first piece has additive constant %r, not 0" % k0
         if not all(finite(x) for p in pieces for x in p):
             return None
         log = ty.startswith("Log")
